@@ -24,6 +24,13 @@ SHARDS = {
 # Proofs that take minutes: verified by `--tier thorough` only (quick: bounded stand-in decides these functions).
 THOROUGH_ONLY = (
     "urwid/widget/columns.py:Columns.column_widths",
+    "urwid/widget/columns.py:Columns.render",
+    "urwid/widget/columns.py:Columns.move_cursor_to_coords",
+    "urwid/widget/columns.py:Columns.mouse_event",
+    "urwid/vterm.py:TermCanvas.resize",
+    "urwid/display/common.py:AttrSpec.foreground",
+    "urwid/display/common.py:AttrSpec.__set_foreground",
+    "urwid/util.py:rle_product",
 )
 SHARDS.update({
     "urwid/widget/columns.py:Columns.column_widths": (16, 12),
@@ -39,3 +46,21 @@ SHARDS.update({
 MODULE_FLAGS = {
     "contracts.C15_vterm": {"qf_forall_only": True},
 }
+
+SHARDS.update({
+    "urwid/widget/columns.py:Columns.render": (16, 10),
+    "urwid/widget/columns.py:Columns.move_cursor_to_coords": (16, 10),
+    "urwid/widget/columns.py:Columns.mouse_event": (12, 8),
+    "urwid/widget/columns.py:Columns.get_pref_col": (4, 5),
+    "urwid/widget/columns.py:Columns.get_cursor_coords": (4, 5),
+    "urwid/display/common.py:AttrSpec.foreground": (12, 5),
+    "urwid/display/common.py:AttrSpec.__set_foreground": (8, 5),
+    "urwid/display/common.py:AttrSpec.__set_background": (6, 4),
+    "urwid/display/common.py:AttrSpec.get_rgb_values": (6, 5),
+    "urwid/display/common.py:_parse_color_88": (6, 5),
+    "urwid/display/common.py:_parse_color_256": (6, 5),
+    "urwid/display/common.py:AttrSpec.__init__": (4, 4),
+    "urwid/util.py:rle_product": (6, 4),
+    "urwid/canvas.py:CanvasCache.invalidate": (4, 3),
+    "urwid/widget/edit.py:Edit.keypress": (6, 5),
+})
